@@ -21,7 +21,7 @@ META = {
         'symbolic boxes: two boxes with a common point must be reported as intersecting.  ApproxSolutionSet and the joint '
         'de-duplication of Path.intersect drop only entries within tol of a kept one.  The bounding boxes used for pruning contain '
         'the curve (degenerate-cubic and quadratic routes, shared with C08).'),
-    'outside': ['that np.roots finds all roots (LAPACK)', 'convergence of the subdivision; the redundant-pair removal loop', 'Arc pairs: only the closed-form Arc x Line candidates and the Arc x Bezier pairing are encoded (Arc.point_to_t for rotation 0 is, see vf/props/c11arc.py; Line.point_to_t, phase2t, Arc x Arc are not)',
+    'outside': ['that np.roots finds all roots (LAPACK)', 'convergence of the subdivision; the redundant-pair removal loop', 'Arc pairs: only the closed-form Arc x Line candidates and the Arc x Bezier pairing are encoded (Arc.point_to_t for rotation 0 is, see vf/props/c11arc.py; phase2t, Arc x Arc are not)',
                 'crossings on a joint (excluded by the property)'],
     'assumptions': ['complete-roots contract for np.roots'],
 }
@@ -272,6 +272,7 @@ def families(tier):
             fams.append(('arc-line-closed-form-%s-%s' % (nm, ln), 'vf.props.c11', 'fam_arc_line_candidates', {'radii': rad, 'line': ln}))
     for n in (2, 3):
         fams.append(('arc-bezier-pairing-%d' % n, 'vf.props.c11', 'fam_arc_bezier_pairing', {'nroots': n}))
+    fams.append(('line-point_to_t', 'vf.props.c11arc', 'fam_line_point_to_t', {}))
     # Arc.point_to_t answers None only for points of the ellipse that are not on the arc (vf/props/c11arc.py)
     for nm, rad in (('2x1', (2.0, 1.0)), ('circle', (2.0, 2.0))):
         for sg in (1, -1):
